@@ -135,7 +135,9 @@ class Sem:
             return "sizeof(%s)" % self.type_name() if c < 0.95 else self.iconst()
         a = lambda: self.int_expr(E, d - 1)  # noqa: E731
         c = r.random()
-        if c < 0.08:
+        if c < 0.04:
+            return "(" + self.bare_chain(E) + ")"
+        if c < 0.12:
             # character-class tests and indexed string literals: operands that begin with '(' and end with ')' and
             # contain bracket characters inside literals
             k = r.random()
@@ -342,6 +344,8 @@ class Sem:
         k = r.choice(kinds)
         sub = lambda **kw: self.stmt(E, d - 1, indent + 2, kw.get("loop", in_loop), kw.get("sw", in_switch), ret, labels)  # noqa: E731
         if k == "expr":
+            if r.random() < 0.15:
+                return f"{ind}gi = {self.bare_chain(E)};"
             return f"{ind}{self.int_expr(E, 2)};"
         if k == "assign":
             c = r.random()
@@ -511,6 +515,35 @@ class Sem:
             head = f"{storage}{rt} {name}({', '.join(ptxt)})\n"
         return head + "{\n" + "\n".join(body_items) + "\n}\n"
 
+    def restrict_kernel(self):
+        """A function whose code at -O1 depends on the restrict / static qualifiers written inside array-parameter brackets
+        (or after the '*'): store through one parameter, re-read through the other."""
+        r = self.r
+        nm = self.fresh("rk")
+        d = r.choice(["int d[restrict]", "int d[restrict static 2]", "int *restrict d", "int d[const restrict]", "int d[restrict 4]",
+                      "int d[static restrict 2]", "int (*restrict d)", "int d[]"])
+        s_ = r.choice(["const int s[restrict]", "const int *restrict s", "const int s[restrict static 1]", "const int s[const restrict]",
+                       "int const s[restrict 3]", "const int s[]"])
+        e1 = r.choice(["s[0] + n", "n - s[0]", "s[0] * 2", "s[0] | n"])
+        e2 = r.choice(["s[0] - n", "s[0] ^ 1", "s[0] + d[0]", "n + s[0] * 3"])
+        return f"int {nm}({d}, {s_}, int n)\n{{\n  d[0] = {e1};\n  d[1] = {e2};\n  return s[0];\n}}\n"
+
+    def bare_chain(self, E):
+        """Binary operators of different precedence levels next to each other without any parentheses."""
+        r = self.r
+        atoms = [self.int_lvalue(E, 0) if r.random() < 0.7 else str(r.randrange(1, 9)) for _ in range(r.randrange(3, 6))]
+        levels = [["||"], ["&&"], ["|"], ["^"], ["&"], ["==", "!="], ["<", ">", "<=", ">="], ["<<", ">>"], ["+", "-"], ["*"]]
+        i = r.randrange(len(levels) - 1)
+        near = levels[i] + levels[i + 1]          # two neighbouring precedence levels: the pairs a wrong table entry confuses
+        ops = [o for lv in levels for o in lv]
+        out = atoms[0]
+        for a in atoms[1:]:
+            op = r.choice(near) if r.random() < 0.7 else r.choice(ops)
+            if op in ("<<", ">>"):
+                a = str(r.randrange(0, 4))
+            out += f" {op} {a}"
+        return out
+
     def file_decl(self):
         r = self.r
         nm = self.fresh("g")
@@ -557,6 +590,7 @@ class Sem:
             items.append(self.file_decl())
         for _ in range(nfun):
             items.append(self.function())
+        items.append(self.restrict_kernel())
         self.r.shuffle(items)
         parts += items
         return "\n".join(parts) + "\n"
